@@ -24,7 +24,46 @@ def run(ctx):
         if len(ofails) > 6:
             break
 
+    # ---- sequences: an audit that raises half way, then an archive of the same shape naming unlisted code (whatever the first
+    # call left behind - marks on nodes, ids in a table - must not let the second one through)
+    from skops.io._protocol import PROTOCOL as _P
+
+    def _lst(i, items):
+        return {"__class__": "list", "__module__": "builtins", "__loader__": "ListNode", "__id__": i, "content": items}
+
+    def _nest(inner, depth, base):
+        for k in range(depth):
+            inner = _lst(base + k, [inner])
+        return dict(inner, protocol=_P, _skops_version="0")
+
+    seq_runs = 0
+    for depth in (1, 5, 20, 60):
+        for rep_ in range(3):
+            broken = {"__class__": None, "__module__": None, "__loader__": "ObjectNode", "__id__": 7,
+                      "content": {"__class__": "dict", "__module__": "builtins", "__loader__": "DictNode", "__id__": 8, "content": {},
+                                  "key_types": _lst(9, [])}}
+            first = ioarch.make_zip(_nest(broken, depth, 100), {})
+            fn = {"__class__": "boom", "__module__": f"verif_canary_dyn_{9000 + depth * 10 + rep_}", "__loader__": "FunctionNode", "__id__": 7}
+            second_schema = _nest(fn, depth, 100)
+            second = ioarch.make_zip(second_schema, {})
+            for T in ([], None):
+                ioarch.impl_load(first, T)                     # raises somewhere inside get_tree / the audit
+                try:
+                    ioarch.impl_untrusted(first)
+                except Exception:
+                    pass
+                r2 = ioarch.impl_load(second, T)
+                seq_runs += 1
+                if r2["outcome"] == "ok" or r2["ledger"] or r2["events"]:
+                    ofails.append((f"unvouched-resolution: after a load whose audit raised half way, loads(trusted={T!r}) of an archive of the same shape "
+                                   f"(depth {depth}) naming {fn['__module__']}.boom ended with {r2['outcome']} and resolved {r2['events'][:2]} / ran {r2['ledger'][:2]}",
+                                   dict(kind="sequence", first=_nest(broken, depth, 100), schema=second_schema, members=[], trusted=T)))
+                    break
+    ctx.coverage["failed_audit_then_load_sequences"] = seq_runs
+
     def shrink(tag, rep):
+        if rep.get("kind") == "sequence":
+            return rep
         members = next(c.members for c in res["cases"] if c.schema == rep["schema"])
 
         def pred(s):
